@@ -6,6 +6,7 @@ package sim
 import (
 	"bufio"
 	"bytes"
+	"errors"
 	"fmt"
 	"net"
 	"net/http"
@@ -27,9 +28,12 @@ type Recorder struct {
 	Events      []string // "H<code>", "W<n>", "F", "J"
 	Flushes     int
 	Hijacked    bool
-	conn        net.Conn
-	peer        net.Conn
-	closeCh     chan bool
+	// RefuseHijack: the writer has a Hijack method (as net/http's and oxy's wrappers do) but this
+	// connection cannot be taken over (HTTP/2, already hijacked): the call fails, nothing changes.
+	RefuseHijack bool
+	conn         net.Conn
+	peer         net.Conn
+	closeCh      chan bool
 }
 
 func NewRecorder() *Recorder {
@@ -85,6 +89,10 @@ func (r *Recorder) Hijack() (net.Conn, *bufio.ReadWriter, error) {
 	defer r.mu.Unlock()
 	if r.Hijacked {
 		return nil, nil, http.ErrHijacked
+	}
+	if r.RefuseHijack {
+		r.Events = append(r.Events, "J-refused")
+		return nil, nil, errors.New("sim: this connection cannot be hijacked")
 	}
 	r.Hijacked = true
 	r.Events = append(r.Events, "J")
